@@ -82,6 +82,21 @@ func init() {
 		zz + "IteByte": func(fr *frame, a []value) value { return fr.i.iteV(types.Typ[types.Uint8], a[0], a[1], a[2]) },
 		zz + "IteU64": func(fr *frame, a []value) value { return fr.i.iteV(types.Typ[types.Uint64], a[0], a[1], a[2]) },
 		zz + "StrEq": func(fr *frame, a []value) value { return fr.i.equalsV(types.Typ[types.String], a[0], a[1]) },
+		zz + "Counter": func(fr *frame, a []value) value {
+			switch a[0].(string) {
+			case "cond.signals":
+				return fr.i.condSignals
+			case "goroutines.queued":
+				n := 0
+				for _, g := range fr.i.goq {
+					if !g.done {
+						n++
+					}
+				}
+				return n
+			}
+			return 0
+		},
 		zz + "Assume": func(fr *frame, a []value) value { fr.i.assume(a[0]); return nil },
 		zz + "Assert": func(fr *frame, a []value) value { fr.i.check(a[0], a[1].(string)); return nil },
 		zz + "Reach":  func(fr *frame, a []value) value { fr.i.path.reached[a[0].(string)]++; return nil },
